@@ -38,6 +38,17 @@ func BuildPrefix(name string, params refchain.Params, n uint32, custom func(h ui
 
 // BuildPrefixOpts is BuildPrefix with the chain / block store options the sessions will use too.
 func BuildPrefixOpts(name string, opts minichain.Opts, n uint32, custom func(h uint32, s *minichain.Spec, p *Prefix)) *Prefix {
+	p, err := TryBuildPrefix(name, opts, n, custom)
+	if err != "" {
+		ev.HarnessError("%s", err)
+	}
+	return p
+}
+
+// TryBuildPrefix is BuildPrefixOpts that reports a valid block refused by the implementation (or a
+// block refused by the reference) instead of stopping the run: the caller decides what an
+// unreachable state means for its property.
+func TryBuildPrefix(name string, opts minichain.Opts, n uint32, custom func(h uint32, s *minichain.Spec, p *Prefix)) (*Prefix, string) {
 	params := opts.Params
 	p := &Prefix{Dir: ev.Scratch(name + "-prefix"), Params: params, Named: map[string]OP{}, Opts: opts}
 	e := minichain.Open(p.Dir, &p.Opts)
@@ -56,11 +67,15 @@ func BuildPrefixOpts(name string, opts minichain.Opts, n uint32, custom func(h u
 		}
 		b := minichain.Build(s)
 		if r := e.Deliver(b.Bytes()); r != "ok" {
-			ev.HarnessError("prefix block %d: %s", h, r)
+			e.Close()
+			os.RemoveAll(p.Dir)
+			return nil, fmt.Sprintf("prefix block %d: %s", h, r)
 		}
 		nd := p.Model.Add(b)
 		if nd == nil || !p.Model.Valid(nd) {
-			ev.HarnessError("reference model refuses prefix block %d: %s", h, p.Model.Why(nd))
+			e.Close()
+			os.RemoveAll(p.Dir)
+			return nil, fmt.Sprintf("reference model refuses prefix block %d: %s", h, p.Model.Why(nd))
 		}
 		p.Cb[h] = OP{Tx: b.Txs[0].TxID(), Vout: 0}
 		p.Blocks = append(p.Blocks, b)
@@ -73,7 +88,7 @@ func BuildPrefixOpts(name string, opts minichain.Opts, n uint32, custom func(h u
 	p.Tip = prev
 	p.Height = n
 	e.Close()
-	return p
+	return p, ""
 }
 
 func (p *Prefix) Remove() { os.RemoveAll(p.Dir) }
